@@ -111,7 +111,7 @@ func drawHistory(t *rapid.T, o HistOpts) History {
 		o2.Ext = false
 		h := drawHistory(t, o2)
 		for i := rapid.IntRange(1, 3).Draw(t, "nhistfaults"); i > 0; i-- {
-			h.Faults = append(h.Faults, HistFault{Kind: pick(t, "hfkind", []string{"Write", "Write", "Close", "CreateFile", "Update"}), N: rapid.IntRange(0, 12).Draw(t, "hfn")})
+			h.Faults = append(h.Faults, HistFault{Kind: pick(t, "hfkind", []string{"Write", "Write", "Close", "CreateFile", "Update", "OpenFile", "OpenFile", "Read"}), N: rapid.IntRange(0, 14).Draw(t, "hfn")})
 		}
 		return h
 	}
